@@ -496,15 +496,28 @@ def rule_show(ctx, R, fn=None):
         return
     from .templates import templates_of
     n = 0
-    for c in fb.closures_of(b):
-        if c.argc != 2 or c.lty(2) not in ("std::string::String", "&str", "&std::string::String"):
+    import re
+    delegated = {}  # display closure name -> string constants it hands to the shared closure it delegates to
+    for c0 in fb.closures_of(b):
+        if c0.argc != 2 or c0.lty(2) not in ("std::string::String", "&str", "&std::string::String"):
             continue
+        c, text_param = c0, 2
+        # a display closure may do nothing but hand its text (and a tag) to one shared local closure: follow it
+        calls0 = [(bi, t) for bi, t in c0.calls()]
+        if len(calls0) == 1 and callee_name(calls0[0][1]["f"], fb).endswith("::call") and len(calls0[0][1]["args"]) == 2:
+            m_ = re.search(r"closure@([^ ]+?):? ", calls0[0][1]["argtys"][0] + " ")
+            tup = Origins(c0, fb).of_operand(calls0[0][1]["args"][1], calls0[0][0], "t")
+            tgt = [x for x in fb.closures_of(b) if m_ and x.raw.get("span", {}).get("at", "") == m_.group(1)] if m_ else []
+            if len(tgt) == 1 and tup[0] == "agg" and ("arg", 2) in tup[2]:
+                c = tgt[0]
+                text_param = 2 + list(tup[2]).index(("arg", 2))
+                delegated[c0.name.rsplit("::", 1)[-1]] = {x[2] for x in tup[2] if x[0] == "const" and isinstance(x[2], str)}
         n += 1
         R.analyse(c.name)
         cfg = normal_cfg(c)
-        roles = Roles(c, fb, param_roles={2: "TEXT"})
+        roles = Roles(c, fb, param_roles={text_param: "TEXT"})
         ev = Events(c, fb, roles=roles)
-        tag = c.name.rsplit("::", 1)[-1]
+        tag = c0.name.rsplit("::", 1)[-1]
         conds = set()
         nonempty = []
         for gb, blk in enumerate(c.blocks):
@@ -561,6 +574,8 @@ def rule_show(ctx, R, fn=None):
             lits[c.name.rsplit("::", 1)[-1]] = {p_[1] for t in ts_ for p_ in t.pieces if p_[0] == "lit"} | {a[2] for t in ts_ for a in t.args if isinstance(a, tuple) and a[0] == "const" and isinstance(a[2], str)}
         except Exception:
             lits[c.name.rsplit("::", 1)[-1]] = set()
+    for nm_, consts_ in delegated.items():
+        lits[nm_] = set(lits.get(nm_, set())) | consts_
     if R.anchor(bool(steps) and len(news) >= 2, "show:streams", "the step call and the two capturing writers"):
         for bi, t in steps[:1]:
             for pos, want, other in ((1, "stdout", "stderr"), (2, "stderr", "stdout")):
